@@ -1138,10 +1138,10 @@ def main(listenip_v6, listenip_v4,
                 else:
                     raise e
 
-        dns_listener.print_listening("DNS")
         if not bound:
             assert last_e
             raise last_e
+        dns_listener.print_listening("DNS")
     else:
         dnsport_v6 = 0
         dnsport_v4 = 0
